@@ -133,7 +133,11 @@ Fixpoint first_out_of_scope_read (s : lstate) (l : list (lop * list obs)) (k : N
       | Some o => match step s o with
                   | Some s' => match first_some (read_scope s s') bs with
                                | Some r => Some (k, r)
-                               | None => first_out_of_scope_read s' l' (k + 1)
+                               | None =>
+                                   (* the closing Select: push_select reads node_mapping directly for `All` columns *)
+                                   if subsetb (map snd (op_frame o)) (fvis (frames s))
+                                   then first_out_of_scope_read s' l' (k + 1)
+                                   else Some (k, (0, None))
                                end
                   | None => None
                   end
